@@ -44,8 +44,12 @@ func init() {
 		Quick: []Job{orcaStep([]string{"c01-"}, nil, stepBounds)}})
 	reg(Check{ID: "C02", Level: "model_checking", Assumptions: orcaAssumptions,
 		Quick: []Job{orcaStep([]string{"c02-"}, nil, stepBounds)}})
-	reg(Check{ID: "C09", Level: "model_checking", Assumptions: orcaAssumptions,
-		Quick: []Job{orcaStep([]string{"c09-"}, nil, stepBounds)}})
+	c09chunk := func(name string, ls int64) Job {
+		return Job{Pkg: "./handlers/memcached/chunked", Func: "ZZChunkedStep", Setup: "ZZSetup", Name: name, Params: map[string]int64{"lenset": ls}, Only: []string{"c09-"}, Reach: []string{"step-done"},
+			Bounds: "real chunked.Handler over the memcached model, one command with a full 32-bit symbolic TTL: afterwards the metadata entry and every chunk carry the deadline the reference map computes, and the Exptime field inside the metadata equals it"}
+	}
+	reg(Check{ID: "C09", Level: "model_checking", Assumptions: append(append([]string{}, orcaAssumptions...), "chunked handler jobs: in-process memcached model (A6), pre-state one complete value per key, clock frozen during the command"),
+		Quick: []Job{orcaStep([]string{"c09-"}, nil, stepBounds), c09chunk("chunked-small", 0), c09chunk("chunked-border", 1)}})
 
 	replies := func(name string, params map[string]int64, only []string, bounds string) Job {
 		return Job{Pkg: "./zz_verif/orcah", Func: "ZZReplies", Name: name, Params: params, Only: only, Reach: []string{"loop-returned", "replies-checked"}, Bounds: bounds}
@@ -118,12 +122,47 @@ func init() {
 	for _, k := range []int64{1, 250} {
 		c16t = append(c16t, ck("ZZSetMetadata", kl(k), "first-request", "real Handler.Set on a value of symbolic length", 600000))
 	}
+	chunkedAssumptions := append([]string{
+		"A6: the backend is the in-process memcached model (harness/zz_verif/model/fakemc.go): binary protocol subset the handlers use, quiet-get misses are silent, TTL rule 0/<=30d relative/absolute, expired = absent",
+		"A1: clock frozen during one command; A2: tokens drawn from crypto/rand are pairwise distinct and differ from the tokens already stored",
+		"pre-state: per key absent, or one complete value (metadata + all chunks, same token and deadline, metadata.Exptime = that deadline) -- the representation invariant every command re-establishes; surplus chunks of an older longer value are not generated (see the known finding on shrink+delete)",
+		"long values are symbolic at byte 0, at the last byte and on both sides of every chunk border, and a fixed position-dependent pattern elsewhere; values up to 8 bytes are fully symbolic; flags, TTL (full 32 bit), opaque, tokens, deadlines symbolic",
+		"request keys carry spare capacity 0, 5 or 8 (the parsers produce keys with spare capacity)",
+	}, stdAssumptions...)
+	cstep := func(name string, params map[string]int64, only []string, bounds string) Job {
+		return Job{Pkg: "./handlers/memcached/chunked", Func: "ZZChunkedStep", Setup: "ZZSetup", Name: name, Params: params, Only: only, Reach: []string{"step-done"}, Bounds: bounds}
+	}
+	csb := "real chunked.Handler over the memcached model: one command (set add replace append prepend delete touch gat get) from an arbitrary well-formed backend state; result class, returned bytes/flags, complete backend post-state, set of backend keys touched, entry sizes and deadlines compared with the reference map; "
+	reg(Check{ID: "C04", Level: "model_checking", Assumptions: chunkedAssumptions,
+		Quick: []Job{
+			cstep("step-small", map[string]int64{"lenset": 0}, []string{"c04-"}, csb+"key length 5; stored and written value lengths {0,1,2}"),
+			cstep("step-border", map[string]int64{"lenset": 1}, []string{"c04-"}, csb+"key length 5; value lengths {p-1,p,p+1}, p = 1092 payload bytes per chunk"),
+			cstep("step-two-chunks", map[string]int64{"lenset": 2}, []string{"c04-"}, csb+"key length 5; value lengths {0,2p,2p+1}"),
+			cstep("step-two-keys", map[string]int64{"lenset": 0, "nkeys": 2}, []string{"c04-"}, csb+"two client keys, the one not addressed keeps its entries"),
+			{Pkg: "./handlers/memcached/chunked", Func: "ZZKeyInjective", Setup: "ZZSetup", Reach: []string{"derived"}, Bounds: "two distinct client keys of 1..3 arbitrary bytes, suffix kinds metadata / chunk 0,1,10,99,100,999"},
+			{Pkg: "./handlers/memcached/chunked", Func: "ZZChunkedShrinkDelete", Setup: "ZZSetup", Reach: []string{"deleted"}, Bounds: "set of 2-3 chunks; set of 0-1 chunks; delete; get"},
+		},
+		Thorough: []Job{
+			cstep("step-keylen1", map[string]int64{"lenset": 3, "keylen": 1}, []string{"c04-"}, csb+"key length 1; value lengths {1,p,3p}"),
+			cstep("step-keylen250", map[string]int64{"lenset": 3, "keylen": 250}, []string{"c04-"}, csb+"key length 250; value lengths {1,p,3p}"),
+			cstep("step-two-keys-border", map[string]int64{"lenset": 1, "nkeys": 2}, []string{"c04-"}, csb+"two client keys; value lengths {p-1,p,p+1}"),
+		}})
+	closs := func(name string, maxn int64, bounds string) Job {
+		return Job{Pkg: "./handlers/memcached/chunked", Func: "ZZChunkedLoss", Setup: "ZZSetup", Name: name, Params: map[string]int64{"maxchunks": maxn}, Reach: []string{"read-done"}, Bounds: bounds}
+	}
+	reg(Check{ID: "C05", Level: "model_checking", Assumptions: append([]string{
+		"loss: a complete value of n chunks is stored; every subset of {metadata, chunk 0..n-1} may be gone (2^(n+1) subsets, enumerated as environment choices; bytes, flags, token symbolic)",
+		"interleavings of two writers at backend-request granularity are not part of this check yet (token comparison is exercised by the C04 step from states whose token is arbitrary)",
+	}, chunkedAssumptions...),
+		Quick:    []Job{closs("loss-up-to-3-chunks", 3, "n = 1..3 chunks, last chunk full or 1 byte; readers: get, get-and-touch, append; every lost subset")},
+		Thorough: []Job{closs("loss-up-to-6-chunks", 6, "n = 1..6 chunks, every lost subset")}})
+
 	reg(Check{ID: "C16", Level: "model_checking", Assumptions: append([]string{
 		"chunk count through float64: decided in the SMT floating-point theory per key length (constant divisor); key lengths between the listed ones are outside the claim for the FP detour (the integer kernels cover all 250)",
 		"float64(int) conversions proven exact (|x| <= 2^53) by a solver query are carried as integers (min/compare/convert back)",
 		"reader step: induction over Reads from the iterator invariant; buffer lengths above 8 are outside the bound",
 		"composition with the real handler runs (every data Set the backend sees has the full chunk length) is asserted by the C04 handler harness",
-	}, stdAssumptions...), Quick: c16q, Thorough: c16t})
+	}, stdAssumptions...), Quick: append(c16q, cstep("handler-entry-sizes", map[string]int64{"lenset": 1}, []string{"c16-"}, csb+"every data entry the backend receives has the full chunk size, every metadata entry 40 bytes; value lengths {p-1,p,p+1}")), Thorough: c16t})
 
 	reg(Check{ID: "C11", Level: "model_checking", Assumptions: append([]string{
 		"binary: the 24 header bytes are fully symbolic (magic fixed to 0x80 in quick, symbolic in thorough); consistent frames declare at most 23 body bytes (so no second header fits in the stream), contradictory frames (total < key+extras) are all covered; the client sends min(total,23) arbitrary body bytes and then waits",
